@@ -164,6 +164,7 @@ void harness(void) {
   mzd_t *TT = mzd_transpose(NULL, T);
   VP_ASSERT(TT->nrows == A->nrows && TT->ncols == A->ncols, "transpose twice: dimensions");
   VP_ASSERT(VP_BIT(TT, vg_i, vg_j) == VP_BIT(A, vg_i, vg_j), "transpose twice gives the original");
+  VP_CANARY();
 #else
 #error mode
 #endif
